@@ -2,6 +2,7 @@
 import ast
 import itertools
 
+from ..core import generic as G
 from ..core import astutil as A
 from ..core import boolx
 from ..core import match as M
@@ -248,6 +249,14 @@ def run(ctx):
     ctx.check("R3", al, coll is not None and M.has(al.node.body, "$matched = []\nfor $atom, $lic in self.pkg_licenses:\n    ...", coll.env) and len(A.assignments(al.node, coll["matched"])) == 2, "matching-entries-in-order", "matching package.license entries are appended in file order")
     ctx.floor("R3", 5)
 
+    # ---- R4 deciding visibility of one package leaves the filter's tables alone ------------------------------------
+    G.pure(ctx, "R4", [("pkgcore.ebuild.misc", q, (), "tokens of one package's entry written into the shared defaults are accepted for every later package")
+                        for q in ("collapsed_restrict_to_data.pull_data", "collapsed_restrict_to_data.iter_pull_data",
+                                  "non_incremental_collapsed_restrict_to_data.pull_data", "non_incremental_collapsed_restrict_to_data.iter_pull_data")]
+           + [(DM, q, (), "a visibility decision must not edit the package or the domain tables") for q in ("domain._apply_keywords_filter", "domain._apply_license_filter")]
+           + [("pkgcore.ebuild.misc", "incremental_expansion", ("param:orig",), "orig= is the documented accumulator"),
+              ("pkgcore.ebuild.misc", "incremental_expansion_license", (), "")])
+    ctx.floor("R4", 8)
 
 MUTANTS = [
     {"name": "repo-masks-last", "file": "src/pkgcore/ebuild/domain.py", "old": "        global_masks = [((), repo.pkg_masks)]\n        if profile:\n            global_masks.extend(self.profile._incremental_masks)\n        masks = set()\n        for neg, pos in global_masks:\n            masks.difference_update(neg)\n            masks.update(pos)\n", "new": "        global_masks = []\n        if profile:\n            global_masks.extend(self.profile._incremental_masks)\n        masks = set()\n        for neg, pos in global_masks:\n            masks.difference_update(neg)\n            masks.update(pos)\n        masks.update(repo.pkg_masks)\n", "rule": "R1"},
